@@ -27,6 +27,8 @@ Oracle (from the statement, not from the code):
     driver owning the subscription must be acting on that value (player_not_acting).
   * a conditional handler is invoked iff Python says the condition holds at the instant it is dispatched
     (handler_wrong).
+Findings on the unchanged tree and their repairs: proposed_fixes/C16-*.diff (+ C07-2 for the subscription that is
+re-armed after its mode stopped); known finding: player variables set to None post no event (documented).
 Relaxations: notifications for variables that were not read are accepted; a result of None may be reported
 as None or as the default; values are compared with == (1 == 1.0 == True: MPF's own change detection uses
 the same notion, a change 1 -> True is not a change).
@@ -60,7 +62,8 @@ REAL = ["mpf.core.placeholder_manager (templates, placeholders, AST walk)", "mpf
         "mpf.devices.driver.Driver pulse template", "mpf.core.mode.Mode (mode-owned subscriptions)"]
 STUBS = ["event loop (SimLoop)", "clock (SimClock)", "virtual hardware platform", "in-memory data manager",
          "playfield.add_ball (fake game without ball devices, as MpfFakeGameTestCase)"]
-ASSUMPTIONS = ["notification needs no timer: once simulated time advances, every pending notify/re-evaluate chain has run",
+ASSUMPTIONS = ["notification needs no timer: once simulated time advances (by more than 1e-7 s; timers within the loop's 1e-9 s "
+               "resolution share an iteration), every pending notify/re-evaluate chain has run",
                "call_soon FIFO order is kept",
                "'in a game' for player placeholders means: a game exists and it has a current player",
                "expressions cannot divide by zero or overflow by construction (outside the statement)"]
